@@ -1244,3 +1244,7 @@ fault("c11-cache-opened-outside-the-guard", "C11", "R11a",
 fault("c20-selector-in-the-log-format", "C20", "R20j",
       (GEXC, "        \"%s [%s/%s] EXCEPTION %s: %s\"\n        % (ipaddr, protostr, handlerstr, exceptionclass, str(exception))\n",
        "        (\"%s [%s/%s] EXCEPTION %s: %s (serving \" + (protocol.selector if protocol else \"\") + \")\")\n        % (ipaddr, protostr, handlerstr, exceptionclass, str(exception))\n"))
+fault("c16-member-date-through-a-validating-constructor", "C16", "R16o",
+      (ZIP, "time.mktime(", "datetime.datetime(*zi.date_time).timestamp() or time.mktime("))
+fault("c05-protocol-asks-the-real-file-system", "C05", "R05o",
+      (PBASE, "    def gethandler(self) -> BaseHandler:\n", "    def selectorexists(self):\n        import os.path\n\n        return os.path.exists(self.config.get(\"pygopherd\", \"root\") + self.selector)\n\n    def gethandler(self) -> BaseHandler:\n"))
